@@ -1266,6 +1266,41 @@ mut("C17", "assignment-head-via-is-env", "R17-4|name-shape|7a", "parse_line asks
     (P, """                let is_an_env = libs::re::re_contains(&token, r"^[a-zA-Z0-9_]+=.*$");""",
      """                let is_an_env = tools::is_env(&token);"""))
 
+mut("C02", "status-only-when-exited", "R02-5|jobc::wait_fg_job|status-write-narrowed",
+    "the last stage's status is recorded only when it exited normally",
+    (J, "        if is_a_fg_child && pid == *pid_last {", "        if is_a_fg_child && pid == *pid_last && ws.is_exited() {"))
+mut("C06", "id-scan-bounded-by-len", "R06-7|shell::Shell::get_job_by_gid|scan-bounded-by-len",
+    "get_job_by_gid stops scanning ids at jobs.len()",
+    (S, """    pub fn get_job_by_gid(&self, gid: i32) -> Option<&types::Job> {
+        if self.jobs.is_empty() {
+            return None;
+        }
+
+        let mut i = 1;
+        loop {
+            if let Some(x) = self.jobs.get(&i) {
+                if x.gid == gid {
+                    return Some(x);
+                }
+            }
+
+            i += 1;
+            if i >= 65535 {""", """    pub fn get_job_by_gid(&self, gid: i32) -> Option<&types::Job> {
+        if self.jobs.is_empty() {
+            return None;
+        }
+
+        let mut i = 1;
+        loop {
+            if let Some(x) = self.jobs.get(&i) {
+                if x.gid == gid {
+                    return Some(x);
+                }
+            }
+
+            i += 1;
+            if i > self.jobs.len() as i32 {"""))
+
 # ------------------------------------------------------------------ more refactors
 ref("history-params-vec", ["C18"], "bind the INSERT parameters through a params! style slice",
     (H, "    match conn.execute(&sql, [line.trim(), info.as_str()]) {",
